@@ -138,6 +138,14 @@ def widen5(a):
     return SArr(shape, a.cplx, a.buf, a.contig, z3.IntVal(nd) if is_conc_int(nd) else nd, dict(a.flags), a.kind, a.own)
 
 
+class SArrN:
+    """an array whose number of axes is not static (the full tensor handed to TT(x), its transposes, a work array that changes
+    rank from one loop iteration to the next): total size, number of axes, optional shape list, kind and buffer"""
+
+    def __init__(self, size, ndim, cplx, buf, shape=None):
+        self.size, self.ndim, self.cplx, self.buf, self.shape = zi(size), zi(ndim), zb(cplx), zi(buf), shape
+
+
 class SDType:
     """a NumPy dtype chosen by a data-dependent conditional expression: only its complexness is tracked"""
 
@@ -346,6 +354,9 @@ class SList:
         """immutable view (same ref) for old() references"""
         v = SList(self.ref, self.length, self.fn, None if self.items is None else list(self.items), self.kind)
         v.transients = dict(getattr(self, 'transients', {}) or {})
+        for extra in ('slice_of', 'split_points'):
+            if extra in self.__dict__:
+                setattr(v, extra, self.__dict__[extra])
         return v
 
 
